@@ -10,7 +10,16 @@ var vMode = 0
 // vLocked: the world is locked by an open query; every structural operation must be rejected
 var vLocked = false
 
-func vPick(l string, n int) int { return int(vconcrete(uint32(vU8(l)) % uint32(n))) }
+// vPickMax > 0 narrows every symbolic choice to its first vPickMax alternatives
+// (multi-operation histories trade breadth per step for depth)
+var vPickMax = 0
+
+func vPick(l string, n int) int {
+	if vPickMax > 0 && n > vPickMax {
+		n = vPickMax
+	}
+	return int(vconcrete(uint32(vU8(l)) % uint32(n)))
+}
 
 // shape 0: plain archetypes {A} {A,B} {B,T} {A,P}, optional removal (recycled id, swapped row)
 func vShapePlain(capacity, pad, removal int) *vWorld {
@@ -642,8 +651,9 @@ func VerifC10_PlainTypedAdd()     { vRun(2, func() { vStepPlain(10, 1, 60) }) }
 func VerifC10_RelTypedNew()       { vRun(2, func() { vStepRel(9, 1, 60) }) }
 func VerifC10_RelTypedRemove()    { vRun(2, func() { vStepRel(12, 1, 60) }) }
 
-// ---- two-operation histories (thorough tier): every pair of operations from each shape
-func vHistory2(rel bool) {
+// ---- multi-operation histories (thorough tier): every sequence of operations, each with its
+// choices narrowed to the first vPickMax alternatives, model and invariants checked after each
+func vHistory(rel bool, steps, pickMax int) {
 	vMode = 0
 	var W *vWorld
 	if rel {
@@ -652,11 +662,25 @@ func vHistory2(rel bool) {
 		W = vShapePlain(1, 60, 1)
 	}
 	vTighten(W.w)
-	W.applyOp(vPick("op1", vNOps), "op1")
-	W.applyOp(vPick("op2", vNOps), "op2")
+	vPickMax = pickMax
+	for k := 0; k < steps; k++ {
+		W.applyOp(vPickOp(), "step")
+	}
+	vPickMax = 0
 }
-func VerifC01T_History2Plain() { vHistory2(false) }
-func VerifC04T_History2Rel()   { vHistory2(true) }
+
+func vPickOp() int {
+	save := vPickMax
+	vPickMax = 0
+	op := vPick("op", 13)
+	vPickMax = save
+	return op
+}
+
+func VerifC01T_History2Plain() { vHistory(false, 2, 3) }
+func VerifC04T_History2Rel()   { vHistory(true, 2, 3) }
+func VerifC01T_History3Plain() { vHistory(false, 3, 2) }
+func VerifC04T_History3Rel()   { vHistory(true, 3, 2) }
 
 // other ID placements and capacities (thorough)
 func VerifC01T_PlainAddPad0()        { vRun(1, func() { vStepPlainV(1, 2, 0, 4) }) }
